@@ -11,6 +11,7 @@ import Logrange.Generated.C10
 * `desc <s>`                       → `none` | `<pos> <lastKnown> <charged> <start> <stale> <wk>`
 * `proj <s>` / `spec <s>`          → MODEL / SPEC content of the pipe partition copied from `s` (events)
 * `dest`                           → `<s>=<ev>` list in stored order
+* `recsize <msgLen> <ownFieldsLen> <provLen>` → `<size of the source record> <size of its copy>` (`recSize`, `addProv`)
 * `quiescent`                      → `0|1`
 * `pipe`                           → `absent|live|deleted reg=<0|1>` (the registry and the registry file)
 * `cfg`                            → the configuration regenerated from the source
@@ -117,6 +118,11 @@ def handle (st : State) (toks : List String) : State × String :=
   | ["proj", s] => (st, showEvs (proj (nat s) st.dest))
   | ["spec", s] => (st, showEvs (specProj st (nat s)))
   | ["dest"] => (st, if st.dest.isEmpty then "-" else " ".intercalate (st.dest.map (fun x => s!"{x.1}={showEv x.2}")))
+  | ["recsize", msgLen, ownLen, provLen] =>
+    -- record size of a source event (message of msgLen bytes, own binary fields of ownLen bytes) and of its copy
+    let e : Ev := ⟨0, List.replicate (nat msgLen) 120, List.replicate (nat ownLen) 1⟩
+    let p : Bytes := List.replicate (nat provLen) 2
+    (st, s!"{recSize e} {recSize (addProv p e)}")
   | ["quiescent"] => (st, b01 (quiescent st))
   | ["pipe"] => (st, (match st.pipe with | .absent => "absent" | .live => "live" | .deleted => "deleted") ++ " reg=" ++ b01 st.reg)
   | ["cfg"] => (st, s!"chanCap={cfgNow.chanCap} dropOnCreate={b01 cfgNow.dropOnCreate} dropOnDelete={b01 cfgNow.dropOnDelete} applyFilter={b01 cfgNow.applyFilter} rearm={b01 cfgNow.rearm}")
